@@ -78,6 +78,8 @@ class FiniteModel:
             self.lu = lu
             self.param_q = True
         self.n_ll_points = 0
+        # log|dx/dz| of an arbitrary preconditioning bijection at each support point
+        self.lj = [z3.Real(f"lj_{j}") for j in range(k)]
 
     def index_of(self, x):
         x = sx.asarray(x)
@@ -107,6 +109,30 @@ class FiniteModel:
 
     def log_q(self, x):
         return _arr([self.lq[j] for j in self.index_of(x)])
+
+
+class FiniteTransform:
+    """An arbitrary preconditioning bijection on the finite space: the coordinates of
+    the support points are kept (a relabelling would not change anything) and each
+    point has its own symbolic log-Jacobian log|dx/dz|.  A cell of x-volume v around
+    s_j has z-volume v / J_j, so a kernel that is exact in the z-space visits the cell
+    with probability proportional to (z-density) * (z-volume) = target_z(j) / J_j."""
+
+    def __init__(self, model):
+        self.m = model
+        self.xp = sx
+        self.dtype = None
+
+    def fit(self, x):
+        return x
+
+    def forward(self, x):
+        js = self.m.index_of(x)
+        return x, _arr([-self.m.lj[j] for j in js])
+
+    def inverse(self, z):
+        js = self.m.index_of(z)
+        return sx.asarray(z), _arr([self.m.lj[j] for j in js])
 
 
 class ScriptFlow:
@@ -178,6 +204,9 @@ class LazyExactKernel:
         script = env["scripts"][call] if call < len(env["scripts"]) else None
         cur = m.index_of(z)
         tgt = sx.terms(self.log_prob_fn(m.points(list(range(m.k)))))
+        if env.get("precond"):
+            # exact kernel in the preconditioned space: z-density times z-volume of the cell
+            tgt = [t - m.lj[j] for j, t in enumerate(tgt)]
         e = [sx.term(sx.exp(sx.asarray(t))) for t in tgt]
         tot = z3.Sum(e)
         prob = core.rv(1)
@@ -208,6 +237,46 @@ def install_kernel():
     sys.modules["orng"] = o
 
 
+_CANDIDATE_VALUES = [
+    [2, 3, 5, 7, 11, 13, 17, 19],
+    ["1/2", 3, "2/3", 5, "7/4", "1/3", 4, "5/2"],
+    [3, "1/2", 7, "1/5", 2, 9, "3/4", 6],
+]
+
+
+def prove_identity(ctx, lhs, rhs, label, detail=None):
+    """lhs == rhs for all values.  `unsat` from the solver is the only way to succeed.
+    A refutation of a large polynomial identity can take nlsat very long to find, so
+    the goal is first evaluated at a few fixed rational points of the positive atoms;
+    a point where it is false is handed to the solver as a hint (the query pinned to
+    that point is decided at once and yields the counterexample, which is then replayed
+    like any other)."""
+    goal = lhs == rhs
+    atoms = [e for (_, e) in ctx.exp_atoms.values()]
+    if atoms and not ctx.assume_constrains_atoms:
+        for vals in _CANDIDATE_VALUES:
+            sub = [(e, z3.RealVal(str(v))) for e, v in zip(atoms, vals)]
+            try:
+                d = core.simp(z3.substitute(lhs - rhs, *sub))
+            except z3.Z3Exception:
+                break
+            off = None
+            if core.is_num(d):
+                off = float(core.frac(d))
+            else:
+                try:  # square roots of the pinned values: evaluate in floats
+                    off = float(core.numeval(d, {}, None, ctx.D, ctx.exp_names))
+                    scale = abs(float(core.numeval(core.simp(z3.substitute(rhs, *sub)), {}, None, ctx.D, ctx.exp_names))) + 1.0
+                    if abs(off) < 1e-9 * scale:
+                        off = 0.0
+                except Exception:  # noqa: BLE001
+                    off = None
+            if off:
+                pin = z3.And(*[e == v for e, v in sub])
+                return ctx.prove(z3.Implies(pin, goal), label, detail={**(detail or {}), "refuted_at_a_fixed_rational_point": True})
+    return ctx.prove(goal, label, detail=detail)
+
+
 class C01(Check):
     pid = "C01"
     required_labels = ["c01/is/evidence_unbiased", "c01/is/measure_unbiased", "c01/smc/evidence_unbiased", "c01/smc/measure_unbiased", "c01/probabilities_sum_to_one"]
@@ -221,7 +290,7 @@ class C01(Check):
     outside = [
         "continuous targets and Monte-Carlo error bounds (replicates): only the exact expectation on finite spaces is decided",
         "adaptive schedules (their evidence estimate is consistent, not unbiased)",
-        "preconditioning on/off (decided deterministically under C04/C05), the third-party kernels, EmceeSMC/BlackJAX variants",
+        "the bijectivity and the reported Jacobian of the real transforms (C04; here the preconditioning map is an arbitrary bijection with an arbitrary Jacobian), the third-party kernels, EmceeSMC/BlackJAX variants",
         "k > 2 support points, N > 2 particles (thorough: N = 3 for importance sampling), more than 2 tempering steps",
     ]
     bounds = {"quick": {"k": 2, "N": 2, "schedules": ["importance", "smc fixed1", "smc fixed2"]}, "thorough": {"k": 2, "N": [2, 3], "schedules": ["importance", "smc fixed1", "smc fixed2", "smc fixed2 lazy kernel"]}}
@@ -234,6 +303,9 @@ class C01(Check):
             {"name": "smc-fixed2-N2-identity", "kind": "smc", "n_steps": 2, "N": 2, "k": 2, "D": 2, "lazy": False, "uniform_q": "param", "timeout_ms": 300000},
             {"name": "smc-fixed2-N2-lazy", "kind": "smc", "n_steps": 2, "N": 2, "k": 2, "D": 2, "lazy": True, "measure": False, "uniform_q": "param", "flat_prior": False, "timeout_ms": 600000},
         ]
+        # the same with an arbitrary preconditioning map (symbolic log-Jacobian per point):
+        # turning preconditioning on never changes what the run converges to
+        out.append({"name": "smc-fixed2-N2-lazy-precond", "kind": "smc", "n_steps": 2, "N": 2, "k": 2, "D": 2, "lazy": True, "measure": False, "uniform_q": "param", "flat_prior": True, "precond": True, "timeout_ms": 600000})
         if tier == "thorough":
             out += [
                 {"name": "is-N3", "kind": "is", "N": 3, "k": 2, "D": 1, "uniform_q": "param", "timeout_ms": 300000},
@@ -253,6 +325,7 @@ class C01(Check):
     def _model(self, ctx, cfg):
         m = FiniteModel(ctx, cfg["k"], uniform_q=cfg.get("uniform_q") or False, flat_prior=bool(cfg.get("flat_prior")))
         eq = [sx.term(sx.exp(sx.asarray(t))) for t in m.lq]
+        ctx.assume_constrains_atoms = not m.uniform_q
         if not m.uniform_q:
             ctx.add_assume(z3.Sum(eq) == 1)
         Z = z3.Sum([sx.term(sx.exp(sx.asarray(a + b))) for a, b in zip(m.ll, m.lp)])
@@ -285,10 +358,10 @@ class C01(Check):
                     # self-normalised weighted mean of the indicator of s_j, times Zhat
                     num = z3.Sum([W[i] for i in range(N) if js[i] == j]) if any(jj == j for jj in js) else core.rv(0)
                     tot_f[j] = tot_f[j] + P * zhat * num / sw
-            ctx.prove(tot_p == 1, "c01/probabilities_sum_to_one")
-            ctx.prove(tot_z == Z, "c01/is/evidence_unbiased")
+            prove_identity(ctx, tot_p, core.rv(1), "c01/probabilities_sum_to_one")
+            prove_identity(ctx, tot_z, Z, "c01/is/evidence_unbiased")
             for j in range(k):
-                ctx.prove(tot_f[j] == gam[j], "c01/is/measure_unbiased", detail={"support_point": j})
+                prove_identity(ctx, tot_f[j], gam[j], "c01/is/measure_unbiased", detail={"support_point": j})
 
         return h
 
@@ -328,8 +401,9 @@ class C01(Check):
             for idxs in itertools.product(*idx_lists):
                 for kerns in itertools.product(*k_lists):
                     rng = ScriptRng(idxs)
-                    LazyExactKernel.current = {"model": m, "scripts": list(kerns), "log": [], "lazy": lazy}
-                    smp = S(log_likelihood=m.log_likelihood, log_prior=m.log_prior, dims=1, prior_flow=ScriptFlow(m, x0), xp=sx, parameters=["p0"])
+                    LazyExactKernel.current = {"model": m, "scripts": list(kerns), "log": [], "lazy": lazy, "precond": bool(cfg.get("precond"))}
+                    extra = {"preconditioning_transform": FiniteTransform(m)} if cfg.get("precond") else {}
+                    smp = S(log_likelihood=m.log_likelihood, log_prior=m.log_prior, dims=1, prior_flow=ScriptFlow(m, x0), xp=sx, parameters=["p0"], **extra)
                     out = smp.sample(N, adaptive=False, n_steps=n_steps, rng=rng, sampler_kwargs={"n_steps": 1})
                     n_runs += 1
                     log = LazyExactKernel.current["log"]
@@ -355,11 +429,11 @@ class C01(Check):
                             cnt = sum(1 for jj in js if jj == j)
                             tot_f[j] = tot_f[j] + P * zhat * core.rv(Fraction(cnt, len(js)))
         ctx.notes["c01_runs"] = n_runs
-        ctx.prove(tot_p == 1, "c01/probabilities_sum_to_one", detail={"runs": n_runs})
-        ctx.prove(tot_z == Z, "c01/smc/evidence_unbiased", detail={"runs": n_runs})
+        prove_identity(ctx, tot_p, core.rv(1), "c01/probabilities_sum_to_one", detail={"runs": n_runs})
+        prove_identity(ctx, tot_z, Z, "c01/smc/evidence_unbiased", detail={"runs": n_runs})
         if measure:
             for j in range(k):
-                ctx.prove(tot_f[j] == gam[j], "c01/smc/measure_unbiased", detail={"support_point": j, "runs": n_runs})
+                prove_identity(ctx, tot_f[j], gam[j], "c01/smc/measure_unbiased", detail={"support_point": j, "runs": n_runs})
 
     # ------------------------------------------------------------------
     def to_cex(self, fl):
@@ -405,6 +479,20 @@ def replay_c01(cex):
     s = math.log(sum(math.exp(v) for v in lq))
     lq = [v - s for v in lq]
     pts = [float(j) for j in range(k)]
+    lj = [val(f"lj_{j}", 0.4 * (j + 1)) for j in range(k)]
+
+    class Tr:
+        xp = np
+        dtype = None
+
+        def fit(self, x):
+            return x
+
+        def inverse(self, z):
+            return np.asarray(z), np.array([lj[j] for j in idx_of(z)])
+
+        def forward(self, x):
+            return np.asarray(x), -np.array([lj[j] for j in idx_of(x)])
 
     def idx_of(x):
         return [pts.index(float(v)) for v in np.asarray(x, float).reshape(-1)]
@@ -477,6 +565,8 @@ def replay_c01(cex):
                     script = state["scripts"][call]
                     cur = idx_of(z)
                     tgt = np.asarray(self.f(np.array([[p] for p in pts])), float)
+                    if cfg.get("precond"):
+                        tgt = tgt - np.asarray(lj)
                     e = np.exp(tgt - tgt.max())
                     pi = e / e.sum()
                     prob, new = 1.0, []
@@ -510,7 +600,8 @@ def replay_c01(cex):
                         for kerns in itertools.product(*k_lists):
                             rng = Rng(idxs)
                             state.update(scripts=list(kerns), log=[])
-                            smp = S(log_likelihood=llike, log_prior=lprior, dims=1, prior_flow=Flow(x0), xp=np, parameters=["p0"])
+                            extra = {"preconditioning_transform": Tr()} if cfg.get("precond") else {}
+                            smp = S(log_likelihood=llike, log_prior=lprior, dims=1, prior_flow=Flow(x0), xp=np, parameters=["p0"], **extra)
                             out = smp.sample(N, adaptive=False, n_steps=n_steps, rng=rng, sampler_kwargs={"n_steps": 1})
                             if len(rng.p_seen) != n_steps or len(state["log"]) != n_steps:
                                 return True, f"C01: a fixed schedule of {n_steps} steps performed {len(rng.p_seen)} weighted draws and {len(state['log'])} kernel calls"
